@@ -30,7 +30,12 @@
 (*            in this library is its uuid (hash, AOEF registry, validators)*)
 (*            so an enriched copy is still that clip                       *)
 (*  "match"   one match with / without source s and target t (0 / 1)       *)
-(*  "project" annotation project over clips 1..3: task[k], ann[k] booleans;*)
+(*  "project" annotation project over clips 1..3: tseq = the clips of the  *)
+(*            tasks in the ORDER the project lists them, aseq = the clips  *)
+(*            of the clip annotations in their order (a clip may carry two *)
+(*            clip annotations).  "Only holds annotations of clips that    *)
+(*            have a task" is a statement about membership: Valid does not *)
+(*            depend on either order nor on multiplicities;                *)
 (*            enr[k]: the task and the clip annotation hold two copies of  *)
 (*            clip k that differ in non-identity content (0 = identical,   *)
 (*            1 = the task's copy has clip features, 2 = the annotation's  *)
@@ -67,7 +72,7 @@ Judged(c) == ~(c.kind = "score" /\ c.field = "Evaluation.score")
 Valid(c) ==
     CASE c.kind = "ce"      -> SameClip(c.pairing) /\ MatchesOK(1..c.na, 1..c.np, c.ms)
       [] c.kind = "match"   -> c.s # 0 \/ c.t # 0
-      [] c.kind = "project" -> \A k \in DOMAIN c.ann : c.ann[k] => c.task[k]
+      [] c.kind = "project" -> \A k \in DOMAIN c.aseq : c.aseq[k] \in Range(c.tseq)
       [] c.kind = "clip"    -> c.st <= c.en
       [] c.kind = "score"   -> c.v = "none" \/ InUnit(c.v)               \* an absent score is no score
 
@@ -103,4 +108,9 @@ LawCounting(c) == (c.kind = "ce" /\ MatchesOK(1..c.na, 1..c.np, c.ms)) =>
     /\ Cardinality({k \in DOMAIN c.ms : c.ms[k][2] # 0}) = c.na
 \* the empty clip evaluation (nothing annotated, nothing predicted, no match) is valid
 LawEmpty == MatchesOK({}, {}, <<>>)
+\* project membership is order- and multiplicity-free: any other listing of the same clips is judged alike
+LawProjectOrderFree(c) == c.kind = "project" =>
+    \A i, j \in DOMAIN c.aseq :
+       LET sw == [k \in DOMAIN c.aseq |-> IF k = i THEN c.aseq[j] ELSE IF k = j THEN c.aseq[i] ELSE c.aseq[k]]
+       IN  (\A k \in DOMAIN sw : sw[k] \in Range(c.tseq)) = (\A k \in DOMAIN c.aseq : c.aseq[k] \in Range(c.tseq))
 =============================================================================
